@@ -135,9 +135,13 @@ func c09Exec(scenario string, prefix []int) c09Result {
 	cfg := RCfg{Name: "svc.example.com", Listens: []RListen{
 		{Addr: "127.0.0.1", UDP: 5060, TCP: 5062, Backends: []string{be1, "tcp://127.0.1.2:7000"}},
 		{Addr: "127.0.0.2", UDP: 5060, TCP: 5062, Backends: []string{"udp://127.0.1.3:7000", "tcp://127.0.1.4:7000"}}}}
+	if scenario == "shrink-first" {
+		// only the host-name backend: its first address is at position 0 of the rotation
+		cfg.Listens[0].Backends = []string{be1}
+	}
 	preStart = func() {
 		vnet.SetHost("be1.example.net", false, "127.0.11.1")
-		if scenario == "shrink" {
+		if scenario == "shrink" || scenario == "shrink-first" {
 			vnet.SetHost("be1.example.net", false, "127.0.11.1", "127.0.11.2")
 		}
 		// next hops named in Route headers; resolved through the simulated DNS
@@ -169,6 +173,12 @@ func c09Exec(scenario string, prefix []int) c09Result {
 		panic(err)
 	}
 	s.Run()
+	// ordinary background noise before the window that is explored: a NAT keep-alive (CRLF CRLF) and a
+	// stray non-SIP datagram on each UDP listener
+	uaA.Send("127.0.0.1:5060", []byte("\r\n\r\n"))
+	uaC.Send("127.0.0.2:5060", []byte("\r\n\r\n"))
+	uaC.Send("127.0.0.1:5060", []byte{0, 1, 0, 0, 0x21, 0x12, 0xa4, 0x42})
+	s.Run()
 	s.EmittedAll()
 	// from here on the schedule is explored: stimuli are injected without waiting in between
 	s.W.SetExplore(vrt.KSched|vrt.KSelect, prefix)
@@ -179,7 +189,7 @@ func c09Exec(scenario string, prefix []int) c09Result {
 		uaC.Send("127.0.0.1:5060", c09Req("C", "UDP", "127.0.0.7:5060", ""))
 		uaA.Send("127.0.0.1:5060", c09Req("D", "UDP", "127.0.0.9:5060", ""))
 	}
-	if scenario == "shrink" {
+	if scenario == "shrink" || scenario == "shrink-first" {
 		// three dispatches on listener 1 walk its whole rotation while one of the three backends disappears
 		uaC.Send("127.0.0.1:5060", c09Req("C", "UDP", "127.0.0.7:5060", ""))
 		uaA.Send("127.0.0.1:5060", c09Req("D", "UDP", "127.0.0.9:5060", ""))
@@ -195,6 +205,8 @@ func c09Exec(scenario string, prefix []int) c09Result {
 	}
 	if scenario == "shrink" {
 		vnet.SetHost("be1.example.net", false, "127.0.11.1")
+	} else if scenario == "shrink-first" {
+		vnet.SetHost("be1.example.net", false, "127.0.11.2") // the address at position 0 of the rotation vanishes
 	} else {
 		vnet.SetHost("be1.example.net", false, "127.0.11.2")
 	}
@@ -233,7 +245,7 @@ func c09Exec(scenario string, prefix []int) c09Result {
 	if scenario == "three-clients" {
 		ids = append(ids, "C")
 	}
-	if scenario == "tcp-backend-churn" || scenario == "shrink" {
+	if scenario == "tcp-backend-churn" || scenario == "shrink" || scenario == "shrink-first" {
 		own["C"], own["D"] = own["A"], own["A"]
 		ids = append(ids, "C", "D")
 	}
@@ -241,7 +253,7 @@ func c09Exec(scenario string, prefix []int) c09Result {
 		own["C"], own["D"] = []string{"127.0.0.32:7100"}, []string{"127.0.0.31:7100"}
 		ids = append(ids, "C", "D")
 	}
-	churn := scenario == "tcp-backend-churn" || scenario == "shrink"
+	churn := scenario == "tcp-backend-churn" || scenario == "shrink" || scenario == "shrink-first"
 	var oc []string
 	for _, id := range ids {
 		to := reqTo[id]
@@ -297,6 +309,24 @@ func c09Exec(scenario string, prefix []int) c09Result {
 			return res
 		}
 	}
+	if scenario == "shrink" || scenario == "shrink-first" {
+		// stable period afterwards (default schedule): the vanished address receives nothing further
+		gone := map[string]string{"shrink": "127.0.11.2:7000", "shrink-first": "127.0.11.1:7000"}[scenario]
+		for k := 0; k < 4; k++ {
+			uaA.Send("127.0.0.1:5060", c09Req(fmt.Sprintf("P%d", k), "UDP", "127.0.0.9:5060", ""))
+			s.Run()
+		}
+		for _, p := range s.EmittedAll() {
+			if p.Proto != "dial" && p.To == gone && bytes.Contains(p.Data, []byte("Call-ID: c09-P")) {
+				res.clause, res.detail = "request-to-removed-backend", fmt.Sprintf("%s no longer resolves for the host name, but a request sent after the change went to it", gone)
+				return res
+			}
+		}
+		if vd := s.Verdict(); vd != "" {
+			res.clause, res.detail = "health", vd+"\n"+s.CrashDetail()
+			return res
+		}
+	}
 	res.outcome = strings.Join(oc, " ")
 	return res
 }
@@ -306,9 +336,9 @@ func c09RaceRun(c *Ctx) {
 		scenario string
 		bound    int
 	}
-	plans := []plan{{"two-clients", 2}, {"tcp-backend-churn", 1}, {"shrink", 1}, {"named-hops", 1}, {"connections-lost", 1}}
+	plans := []plan{{"two-clients", 2}, {"tcp-backend-churn", 1}, {"shrink", 1}, {"shrink-first", 1}, {"named-hops", 1}, {"connections-lost", 1}}
 	if c.Thorough() {
-		plans = []plan{{"two-clients", 3}, {"three-clients", 3}, {"tcp-backend-churn", 2}, {"shrink", 2}, {"named-hops", 2}, {"connections-lost", 2}}
+		plans = []plan{{"two-clients", 3}, {"three-clients", 3}, {"tcp-backend-churn", 2}, {"shrink", 2}, {"shrink-first", 2}, {"named-hops", 2}, {"connections-lost", 2}}
 	}
 	if v := os_Getenv("VERIF_C09_BOUND"); v != "" {
 		var b int
@@ -353,7 +383,7 @@ var _ = net.IPv4zero
 
 func init() {
 	addCheck(&Check{ID: "C09", Level: "model_checking", Race: true,
-		Rule:    "stateless depth-first search over schedules with deviation bounding (every non-default choice of the next goroutine or the firing select case costs one deviation) of the REAL proxy built with -race: two listens entries of one service (each UDP+TCP listener, each with its own UDP and TCP backend; one backend by host name), a UDP client on listener 1 and a TCP client on listener 2 (thorough: plus a UDP client on listener 2 announcing the same Via host), reactive backend doubles answering every request, and a membership change (remove + add) through the real resolver callback path, all injected without waiting; scenarios two-clients (<=2 deviations, thorough <=3), three-clients (thorough <=2), tcp-backend-churn (host-name TCP backend connected, removed and replaced while three requests are dispatched; <=1, thorough <=2), shrink (a host name resolving to two of listener 1's three backends loses one address while three requests walk the rotation; <=1, thorough <=2), named-hops (requests on both listeners carry Route headers naming next hops by host name, resolved through the simulated DNS, while the membership changes; <=1, thorough <=2), connections-lost (both TCP backend connections of listener 1 were closed by their peers; two requests that have to re-connect and a TCP client on listener 2 arrive at once; <=1, thorough <=2); every execution is checked by the oracle on the packet log AND by the Go race detector, whose hand-off-blind view is obtained by a norace spin scheduler; states = executions, transitions = choice points visited; non-trivial = execution with at least one deviation",
+		Rule:    "stateless depth-first search over schedules with deviation bounding (every non-default choice of the next goroutine or the firing select case costs one deviation) of the REAL proxy built with -race: two listens entries of one service (each UDP+TCP listener, each with its own UDP and TCP backend; one backend by host name), a UDP client on listener 1 and a TCP client on listener 2 (thorough: plus a UDP client on listener 2 announcing the same Via host), reactive backend doubles answering every request, and a membership change (remove + add) through the real resolver callback path, all injected without waiting, after a set-up that includes a CRLF keep-alive and a non-SIP datagram on the UDP listeners; scenarios two-clients (<=2 deviations, thorough <=3), three-clients (thorough <=2), tcp-backend-churn (host-name TCP backend connected, removed and replaced while three requests are dispatched; <=1, thorough <=2), shrink / shrink-first (a host name resolving to two of listener 1's three backends loses its second / its first address while three requests walk the rotation, followed by a stable period in which the vanished address must receive nothing; <=1, thorough <=2), named-hops (requests on both listeners carry Route headers naming next hops by host name, resolved through the simulated DNS, while the membership changes; <=1, thorough <=2), connections-lost (both TCP backend connections of listener 1 were closed by their peers; two requests that have to re-connect and a TCP client on listener 2 arrive at once; <=1, thorough <=2); every execution is checked by the oracle on the packet log AND by the Go race detector, whose hand-off-blind view is obtained by a norace spin scheduler; states = executions, transitions = choice points visited; non-trivial = execution with at least one deviation",
 		Assume:  []string{"scheduling points are synchronisation operations, select, socket reads; unsynchronised accesses are reported by the race detector on every explored execution", "socket operations carry exactly the happens-before edges the Go runtime gives them on unix (per-descriptor ordering; global ioSync word for stream read/write; none for datagrams)", "a request whose chosen backend is removed concurrently may be lost (the statement's 'registered at that moment')"},
 		Run:     func(c *Ctx) {},
 		RaceRun: c09RaceRun,
